@@ -158,7 +158,10 @@ class Builder:
             return contains(self.term(c[1]), self.term(c[2]))
         if k == "t":
             # an expression in condition position is a condition of its own: never the same object as another condition
-            # (only VALUE sub-expressions are shared by the `share_terms` form)
+            # (only VALUE sub-expressions are shared by the `share_terms` form) - unless the case asks for ONE expression
+            # object in condition position and in value positions (share_terms == "all")
+            if self.share_terms == "all":
+                return self.term(c[1])
             return self._term(c[1])
         if k == "pf":
             return W.PREDICATE_FUNCS[c[1]](*[self.term(a) for a in c[2]])
